@@ -965,6 +965,37 @@ def r03_22(run, model):
                     hn = holder["pat"]["name"]
                     via = any(c["k"] == "MethodCall" and c["method"] == "push_constraint" and hn in S.idents(c) for c in S.walk(scope))
                 if direct or via:
+                    # the equation holds on every way through the scope that owns the list: each branch beside it (an `else`, a sibling arm)
+                    # states the same kind of equation, diverges or reports - an equation that is only stated while the callee's type is
+                    # still unknown leaves the arity of a call through a function-typed local unchecked
+                    if depth == 0:
+                        from rules.c01 import is_divergent
+
+                        def states(b):
+                            if b is None:
+                                return False
+                            for st2 in S.find(b, "Struct"):
+                                if st2["segs"][-1] == "TFunc":
+                                    pf2 = next((fl for fl in st2["fields"] if fl["name"] == "params"), None)
+                                    if pf2 is not None and pf2["expr"] is not None and nm in S.idents(pf2["expr"]):
+                                        return True
+                            return any(c["k"] in ("Call", "MethodCall") and any(S.is_path(a, nm) for a in c["args"]) for c in S.walk(b)) or \
+                                is_divergent(b) or S.pushes_error(model, run.facts, CHECK, b)
+                        partial = None
+                        for a in fpar.ancestors(st):
+                            if a is scope or not S.span_contains(scope["sp"], a["sp"]):
+                                break
+                            if a["k"] == "If" and not states(a["then"] if not S.span_contains(a["then"]["sp"], st["sp"]) else a.get("else")):
+                                if S.span_contains(a["then"]["sp"], st["sp"]) and a.get("else") is None and a["cond"]["k"] != "Let":
+                                    partial = a
+                                elif a.get("else") is not None:
+                                    partial = a
+                            elif a["k"] == "Match":
+                                for arm in a["arms"]:
+                                    if not S.span_contains(arm["sp"], st["sp"]) and not states(arm["body"]):
+                                        partial = a
+                        if partial is not None:
+                            continue
                     return f"params of the call-site function type at line {st['sp'][0]}, which is an operand of push_constraint"
             if depth < 1:
                 for c in S.walk(scope):
